@@ -306,6 +306,24 @@ func c18ReloadBody(stage string, withHooks bool) {
 			{"id-zero", strings.Replace(other.yaml(), "- id: 1", "- id: 0", 1)},
 			{"missing-basedir", strings.SplitN(other.yaml(), "\n", 2)[1]},
 		}
+		// rejected documents that repeat the HMAC keys and costs of the configuration being served with other r / p values
+		{
+			alt := current
+			alt.Sets = append([]ref.ParamSet{}, current.Sets...)
+			for i := range alt.Sets {
+				if alt.Sets[i].Algo == ref.AlgoScrypt {
+					alt.Sets[i].R, alt.Sets[i].P = alt.Sets[i].R+5, alt.Sets[i].P+2
+				}
+			}
+			undefined := alt
+			undefined.Def = 99
+			emptyDir := alt
+			emptyDir.Base = filepath.Join(root, "bad-same-keys-empty")
+			os.RemoveAll(emptyDir.Base)      //nolint:errcheck
+			os.MkdirAll(emptyDir.Base, 0700) //nolint:errcheck
+			bads = append(bads, struct{ kind, yaml string }{"same-keys-other-r-p-undefined-default", undefined.yaml()},
+				struct{ kind, yaml string }{"same-keys-other-r-p-empty-directory", emptyDir.yaml()})
+		}
 		for _, b := range bads {
 			id := fmt.Sprintf("r%d/bad-config/%s", r, b.kind)
 			R.Mark(id)
